@@ -130,6 +130,9 @@ type cfg struct {
 	Skew          bool
 	StwProb       float64
 	GateTimeoutUs int
+	PIdle         float64 // probability of idling between two cycles
+	IdleMaxUs     int
+	StartSpreadUs int // workers start staggered over this many microseconds
 }
 
 type violation struct {
@@ -523,7 +526,17 @@ func (t *trial) worker(w int, seed int64) {
 	rng := rand.New(rand.NewSource(seed))
 	var pending []*handle
 	var st []stale
+	if t.cfg.StartSpreadUs > 0 {
+		time.Sleep(time.Duration(rng.Intn(t.cfg.StartSpreadUs)) * time.Microsecond)
+	}
 	for i := 0; i < t.cfg.Cycles; i++ {
+		if rng.Float64() < t.cfg.PIdle {
+			if t.cfg.IdleMaxUs == 0 {
+				runtime.Gosched()
+			} else {
+				time.Sleep(time.Duration(rng.Intn(t.cfg.IdleMaxUs)) * time.Microsecond)
+			}
+		}
 		if rng.Float64() < t.cfg.StwProb {
 			t.quiescent(false)
 		}
@@ -914,6 +927,9 @@ func genCfg(rng *rand.Rand) cfg {
 	c.Skew = rng.Intn(2) == 0
 	c.StwProb = []float64{0, 0.03, 0.08}[rng.Intn(3)]
 	c.GateTimeoutUs = 50 + rng.Intn(400)
+	c.PIdle = []float64{0, 0.2, 0.6}[rng.Intn(3)]
+	c.IdleMaxUs = []int{0, 30, 150, 400}[rng.Intn(4)]
+	c.StartSpreadUs = []int{0, 0, 100, 600}[rng.Intn(4)]
 	return c
 }
 
@@ -1000,7 +1016,7 @@ func runTrial(r *vlib.Run, mode string, trialNo int, rng *rand.Rand) (alive bool
 	served := map[*dialRec]int{}
 	lateJoin := 0
 	cls := map[string]int64{}
-	var dones, again, noop int64
+	var dones, again, noop, exposedAgain, exposedAgainNewer, exposedNoop int64
 	for _, cl := range all {
 		cls[cl.class]++
 		if cl.servedBy != nil {
@@ -1016,6 +1032,26 @@ func runTrial(r *vlib.Run, mode string, trialNo int, rng *rand.Rand) (alive bool
 				again++
 			case "noop":
 				noop++
+			default:
+				continue
+			}
+			// Was another handle of this address surely held for the whole call? Then a
+			// release that is not a no-op had something to damage.
+			for _, o := range all {
+				if o == cl || o.Addr != cl.Addr || o.Conn == nil || o.Ret >= d.Call {
+					continue
+				}
+				if fr := o.firstRelease(); fr != nil && fr.Call > d.Ret {
+					if d.Kind == "again" {
+						exposedAgain++
+						if o.Conn != cl.Conn {
+							exposedAgainNewer++
+						}
+					} else {
+						exposedNoop++
+					}
+					break
+				}
 			}
 		}
 	}
@@ -1027,6 +1063,16 @@ func runTrial(r *vlib.Run, mode string, trialNo int, rng *rand.Rand) (alive bool
 		n := served[d]
 		if n >= 2 {
 			shared++
+		}
+		switch {
+		case n == 0:
+			r.Count("dials_serving_0_callers", 1)
+		case n == 1:
+			r.Count("dials_serving_1_caller", 1)
+		case n <= 4:
+			r.Count("dials_serving_2_to_4_callers", 1)
+		default:
+			r.Count("dials_serving_5plus_callers", 1)
 		}
 		if n > maxShare {
 			maxShare = n
@@ -1061,6 +1107,9 @@ func runTrial(r *vlib.Run, mode string, trialNo int, rng *rand.Rand) (alive bool
 	r.Count("done_calls", dones)
 	r.Count("done_second_calls", again)
 	r.Count("done_calls_of_failed_requests", noop)
+	r.Count("done_second_calls_while_another_handle_of_the_address_was_held", exposedAgain)
+	r.Count("done_second_calls_while_a_newer_conn_of_the_address_was_held", exposedAgainNewer)
+	r.Count("done_calls_of_failed_requests_while_a_conn_of_the_address_was_held", exposedNoop)
 	r.Count("state_samples_while_held", atomic.LoadInt64(&t.nSamples))
 	r.Count("quiescent_checks", atomic.LoadInt64(&t.nStw))
 	r.Count("quiescent_conns_open_and_held", atomic.LoadInt64(&t.stwOpenHeld))
@@ -1079,9 +1128,6 @@ func runTrial(r *vlib.Run, mode string, trialNo int, rng *rand.Rand) (alive bool
 		r.Count("trials_with_close_events_exactly_once_judged", 1)
 	} else if len(t.conns) > 0 {
 		r.Count("trials_without_close_events_exactly_once_not_judged", 1)
-	}
-	if maxShare > 0 {
-		r.SetAdd("share_degrees", fmt.Sprint(maxShare))
 	}
 	if len(t.viols) == 0 {
 		if shared > 0 && (redials > 0 || failedDials > 0) {
